@@ -57,6 +57,8 @@ impl Side {
             Ok(()) => Res::Ok,
             Err(crux_core::ResolveError::Never) => Res::Never,
             Err(crux_core::ResolveError::FinishedMany) => Res::Finished,
+            #[allow(unreachable_patterns)]
+            Err(_) => Res::Other,
         })
     }
     fn drop_handle(&mut self, h: usize) {
